@@ -95,7 +95,8 @@ def classify(case, impl, model, disc):
 LEVEL_TEXT = ("Proof: C07_overlap_exact (for every ts-sorted permutation of the communication/computation intervals and every time-sorted permutation of "
               "the status rows: numerator = number of time cells covered by both a communication and a computation kernel, denominator = cells covered by a "
               "communication kernel, 0 <= num <= den), C07_sweep_exact (the boundary-row sweep for any tie order), C07_bounds; unbounded in the number of "
-              "kernels. Correspondence on get_comm_comp_overlap for every rank.")
+              "kernels. Correspondence on get_comm_comp_overlap for every rank."
+              " C07_resolution_independent: times multiplied by k > 0 multiply numerator and denominator by k.")
 LEVEL_NOTE = ("Hand model of get_comm_comp_overlap_value on top of merge_kernel_intervals (C04's model); kernel classification modelled from the regex "
               "constants (checked literally by the translator). Float division and round(.,2) not modelled (tolerance 0.005).")
 TECHNIQUE = "Coq proof (sweep-line lemma over sorted boundary rows, cell-counting measure) + differential correspondence via vm_compute"
